@@ -200,6 +200,25 @@ def origins(fn, start, through_casts=True, through_calls=None, max_steps=4000, w
             elif df.kind in ("call", "partcall"):
                 c = df.call
                 nxt = through_calls(c) if through_calls else None
+                if nxt == 0 and c.name.endswith("Iterator::zip") and len(c.args) >= 2:
+                    # the items of a zip are pairs: position 0 comes from the receiver, position 1 from the argument.
+                    # The projection read off the item (behind the `Some(..)` of `next()`) says which one is meant.
+                    pr = list(proj)
+                    k_ = 0
+                    while k_ + 1 < len(pr) and pr[k_] in ("as Some", "as Continue", "as Ok") and pr[k_ + 1] == "0":
+                        k_ += 2
+                    if k_ < len(pr) and pr[k_] in ("0", "1"):
+                        which = [int(pr[k_])]
+                        rest = tuple(pr[:k_] + pr[k_ + 1:])
+                    else:
+                        which = [0, 1]
+                        rest = proj
+                    for w_ in which:
+                        a = c.args[w_]
+                        if "c" not in a:
+                            p = op_place(a)
+                            work.append((p["l"], _proj_names(p) + rest))
+                    continue
                 if nxt is not None and nxt < len(c.args):
                     a = c.args[nxt]
                     if "c" in a:
